@@ -261,6 +261,26 @@ class Check:
         self.gate["discharged"] = discharged
         self.gate["theorems"] = [n for _, n in names]
         self.gate["axioms"] = sorted(axioms)
+        if self.tier == "thorough" and not os.environ.get("VERIF_NO_COQCHK"):
+            # independent re-check of the compiled property file and everything it depends on
+            mods = ["BlackIt." + p[:-2].replace("/", ".") for p in prop_files]
+            rc, out, err, dt = _run(["coqchk", "-silent", "-o", "-Q", str(COQ), "BlackIt", *mods], cwd=COQ, timeout=3000)
+            self.coq_time += dt
+            self.gate["coqchk_wall_s"] = round(dt, 1)
+            if rc != 0:
+                self.broken_proof("coqchk", (out + err)[-600:])
+                return False
+            m = re.search(r"\* Axioms:(.*?)\n\s*\n\* Constants", out, flags=re.S)
+            listed = [x.strip() for x in (m.group(1).split("\n") if m else []) if x.strip() and "<none>" not in x]
+            bad = [x for x in listed if not x.startswith("Coq.")]
+            self.gate["coqchk_axioms_of_loaded_libraries"] = listed
+            for sect in ("type-in-type", "unsafe (co)fixpoints", "positivity is assumed"):
+                mm = re.search(re.escape(sect) + r":\s*(.*)", out)
+                if mm and "<none>" not in mm.group(1):
+                    bad.append(f"{sect}: {mm.group(1)[:100]}")
+            if bad:
+                self.broken_proof("coqchk", f"coqchk reports: {bad[:6]}")
+                return False
         return discharged == len(names)
 
     def broken_proof(self, theorem, what):
@@ -386,6 +406,10 @@ class Check:
             "harness (generators, instrumentation wrappers, literal emitter) in /verif/harness",
             *trusted,
         ]
+        if "coqchk_axioms_of_loaded_libraries" in self.gate:
+            cov["coqchk"] = {"cmd": "coqchk -silent -o -Q coq BlackIt BlackIt.Properties." + self.pid,
+                             "wall_s": self.gate.get("coqchk_wall_s"),
+                             "axioms_of_all_loaded_libraries": self.gate["coqchk_axioms_of_loaded_libraries"]}
         cov["known_findings_matched"] = [k["id"] for k in self.known]
         cov["coq_wall_s"] = round(self.coq_time, 2)
         if self.notes:
